@@ -315,7 +315,10 @@ pub fn finish(rep: &Reporter, tier: Tier, cov: Coverage, started: Instant) -> i3
             n_replay += 1;
             let path = format!("{}/{}-{}.json", replay_dir, prop, n_replay);
             let doc = json!({"property": prop, "signature": sig, "cases_with_this_signature": e.count, "case": s});
-            let _ = std::fs::write(&path, serde_json::to_string_pretty(&doc).unwrap());
+            // replay runs (and mutant evaluations that must not touch evidence) keep recorded files
+            if std::env::var("IVK_REPLAY_MODE").is_err() {
+                let _ = std::fs::write(&path, serde_json::to_string_pretty(&doc).unwrap());
+            }
             if i == 0 && unknown_sigs <= 25 {
                 lines.push(format!("VIOLATION property={} replay={}   [{} x{}]", prop, path, sig, e.count));
             }
